@@ -8,6 +8,13 @@ STD_TRUSTED = {
 
 INT = "Go's int/int64 arithmetic is modelled by unbounded Z (wrap-around written explicitly where the property is about it: int32(status))"
 
+ENGINE_ASSUME = [
+    "scheduling granularity = operation (one consume iteration / poll cycle / relay cycle / API call); faults at adapter-call granularity (error before/after effect, lease loss, crash)",
+    "the engine runs on simulation adapters implementing the reference store/stream/timeout contracts (harness/sim.go = coq/model/EngineBase.v); bundled adapters are tied to the same contracts by C17/C19/C12/C18",
+    "user functions are scripts of a small deterministic language interpreted identically by the harness and the model; encoding/json round trip of the object type assumed identity",
+    "run IDs / outbox IDs are canonicalised by first appearance (uuid freshness assumed)",
+]
+
 PROPS = {
     "C02": {
         "families": ["graph"],
@@ -30,6 +37,16 @@ PROPS = {
         "families": ["shard"],
         "assumptions": [INT, "the repaired shard filter computes a non-negative remainder whose intermediate values stay within int64 (|id % n| < n)"],
         "explanation": "shard filter: theorem for every integer ID and every n; correspondence on a window, int64 edges, random and hashed IDs",
+    },
+    "C11": {
+        "families": ["engine"],
+        "assumptions": ENGINE_ASSUME + ["data-race freedom is a statement about Go's memory model and is not modelled (partial)"],
+        "explanation": "engine traces under every single fault placement: lease discipline, survival after errors, open/close balance",
+    },
+    "C16": {
+        "families": ["engine"],
+        "assumptions": ENGINE_ASSUME,
+        "explanation": "every stored record of every scenario: identity, version+1, description, object hand-over",
     },
     "C13": {
         "families": ["counter"],
